@@ -86,8 +86,23 @@ def accepted_violations(ast):
     out = set()
     byid = {d["id"]: d for d in ast["declarations"] if "id" in d}
     for d in ast["declarations"]:
+        if d["kind"] == "enum_declaration" and d["width"] < 64:
+            # E40 / E14: every tag value and both bounds of every range fit the width
+            mx = (1 << d["width"]) - 1
+            for t in d["tags"]:
+                if "range" in t and (t["range"]["start"] > mx or t["range"]["end"] > mx):
+                    out.add("E40")
+                for x in t.get("tags", []) or []:
+                    if "value" in x and x["value"] > mx:
+                        out.add("E14")
         if d["kind"] not in ("packet_declaration", "struct_declaration"):
             continue
+        # E24: a size field for the payload / body of a declaration that has none of THAT kind
+        kinds = {f["kind"] for f in d.get("fields", []) or []}
+        for f in d.get("fields", []) or []:
+            if f["kind"] == "size_field" and ((f.get("field_id") == "_payload_" and "payload_field" not in kinds)
+                                              or (f.get("field_id") == "_body_" and "body_field" not in kinds)):
+                out.add("E24")
         # E22: a field constrained twice, in one list or along the inheritance chain
         seen, cur, hops = [], d, 0
         while cur is not None and hops < 64:
@@ -111,7 +126,7 @@ def reported(rule, codes):
 def run(tier, seed):
     binary = langs.drv_binary()
     common.build_oracle()
-    n = 900 if tier == "quick" else 6000
+    n = 1300 if tier == "quick" else 6000
     ds = ad.corpus(seed, n)
     names = [x for x, _ in ds]
     texts = [pdlast.to_pdl(a) for _, a in ds]
